@@ -80,10 +80,22 @@ fn open(path: &Path, key: &Option<String>) -> Result<MdkSqliteStorage, String> {
 fn do_call(m: &MDK<MdkSqliteStorage>, gid: &GroupId, keys: &Keys, c: &Call) -> String {
     match c {
         Call::Process(ev) => result_kind(&m.process_message(ev)),
-        Call::CreateMessage(content) => match m.create_message(gid, rumor(keys, content, 1_700_000_000)) {
-            Ok(_) => "Ok".into(),
-            Err(e) => format!("Err({})", err_variant(&e)),
-        },
+        Call::CreateMessage(content) => {
+            let r = rumor(keys, content, 1_700_000_000);
+            let rid = r.id;
+            match m.create_message(gid, r) {
+                Ok(ev) => {
+                    // the stored message names the event this very call returned (the one that gets published)
+                    let stored = rid.and_then(|id| m.get_message(gid, &id).ok().flatten());
+                    match stored {
+                        Some(sm) if sm.wrapper_event_id == ev.id => "Ok".into(),
+                        Some(_) => "Ok(stored-message-names-another-wrapper)".into(),
+                        None => "Ok(message-not-stored)".into(),
+                    }
+                }
+                Err(e) => format!("Err({})", err_variant(&e)),
+            }
+        }
         Call::SelfUpdate => match m.self_update(gid) {
             Ok(_) => "Ok".into(),
             Err(e) => format!("Err({})", err_variant(&e)),
@@ -376,7 +388,7 @@ pub fn enumerate(rep: &mut Report, prop: &str, hist_name: &str, db0: &Path, gid:
                     let wh = format!("after a crash inside {call_label}[{}], recovery ends in a different state than the uninterrupted run, the same state a clean restart at that call boundary ends in", calls[*idx].0);
                     my_sig = Some((sg.clone(), wh.clone()));
                     findings.lock().unwrap().push((sg, wh, json!({"history": hist_name, "site": site, "k": k})));
-                } else if fin != *final_ref {
+                } else if fin != *final_ref || results.iter().any(|r| r.starts_with("Ok(")) {
                     let keys_of = |a: &Value, b: &Value| -> String {
                         let mut d: Vec<String> = Vec::new();
                         for key in ["mls", "record", "relays", "messages", "pending_commit", "state", "proposals"] {
